@@ -115,7 +115,7 @@ def _svc_eval(I, m, env, skip=()):
     return out
 
 
-def setup_symbolic(ss, I, status=None):
+def setup_symbolic(ss, I, status=None, switched=False):
     """replace data of the PF models by inputs; returns the input-base description used by the oracle"""
     if I.symbolic:
         eqsmt.CTX = eqsmt.Ctx()
@@ -160,7 +160,18 @@ def setup_symbolic(ss, I, status=None):
     if L.n:
         for p in ('tap', 'phi', 'u'):
             L.__dict__[p].v = I.arr(*cols[p]) if not I.symbolic else pysym.oarr(cols[p])
-        _svc_eval(I, L, env)
+        if switched:
+            # the services were evaluated while the lines had another status (a Toggle changes `u` afterwards and nothing
+            # re-evaluates ConstServices): the status the equations see is the current one, the one the services saw is arbitrary
+            env_init = dict(env)
+            env_init['u'] = []
+            for k in range(L.n):
+                v = I.real(f'L{k}_u_when_services_were_evaluated')
+                I.assume(OR(EQ(v, 0, tol=0.0), EQ(v, 1, tol=0.0)))
+                env_init['u'].append(v)
+            _svc_eval(I, L, env_init)
+        else:
+            _svc_eval(I, L, env)
     # ---- Shunt
     Sh = ss.Shunt
     for k in range(Sh.n):
@@ -264,10 +275,10 @@ def oracle(ss, desc, y):
     return P, Q
 
 
-def run_fg(ss, I, status=None):
+def run_fg(ss, I, status=None, switched=False):
     models = ss.PFlow.models
     info = symsys.prepare(ss, models, I)
-    desc = setup_symbolic(ss, I, status)
+    desc = setup_symbolic(ss, I, status, switched=switched)
     for m in models.values():
         if m.n:
             m.get_inputs(refresh=True)
@@ -283,10 +294,10 @@ def run_fg(ss, I, status=None):
     return info, desc
 
 
-def h_balance(name, order=None, str_idx=False):
+def h_balance(name, order=None, str_idx=False, switched=False):
     def h(I):
         ss = get_sys(name, order, str_idx)
-        info, desc = run_fg(ss, I, STATUS.get(name))
+        info, desc = run_fg(ss, I, STATUS.get(name), switched=switched)
         P, Q = oracle(ss, desc, info['y'])
         g = ss.dae.g
         out = []
@@ -314,6 +325,8 @@ def region_of(values, cname):
 
 def job(spec):
     kind, arg = spec
+    if kind == 'balsw':
+        return H.run(f'PFlow.fg_update after line switching [{arg}]', h_balance(arg, None, False, True), timeout_ms=15000, max_paths=64, region=region_of)
     if kind == 'bal':
         name, order, sidx = arg
         return H.run(f'PFlow.fg_update[{name}{",reversed" if order else ""}{",str idx" if sidx else ""}]', h_balance(*arg),
@@ -339,7 +352,7 @@ def main():
               'sin/cos uninterpreted (same arguments on both sides); quotients division-free with denominators != 0')
     ck.out('convergence of Newton from a flat start (an iteration, not decidable by a bounded query)', 'Newton-Krylov variant',
            'the residual at the post-update point', 'networks beyond the catalogue', 'PQ constant-impedance conversion outside [vmin, vmax]')
-    jobs = [('bal', ('tx2', None, False)), ('bal', ('tri3', None, False)), ('bal', ('tri3', 'reversed', True))]
+    jobs = [('bal', ('tx2', None, False)), ('bal', ('tri3', None, False)), ('bal', ('tri3', 'reversed', True)), ('balsw', 'tx2')]
     if thorough:
         jobs += [('bal', ('tx2', 'reversed', True))]
     ck.merge(core.pmap(job, jobs))
